@@ -44,7 +44,7 @@ BestSizes(Vs, signed, nWord, nFrac) ==
        nf0 == IF nFrac = NONE THEN SetMax({FracBits(V, NWMAX - sign) : V \in Vs}) ELSE nFrac
        vmax == ScaledInt(SetMax(Vs), nf0)
        vmin == ScaledInt(SetMin(Vs), nf0)
-       ni0 == IntLoop(vmax, vmin, 0, NWMAX - sign)
+       ni0 == IntLoop(vmax, vmin, 0, NWMAX - sign + Max(nf0, 0))     \* (the scaled values have nf0 bits more than their integer parts)
        ni == Max(ni0 - nf0, 0)
        wf == IF nWord = NONE
              THEN LET f == Min(NWMAX - sign - ni, nf0) IN [w |-> f + ni + sign, f |-> f]
